@@ -103,6 +103,7 @@ def _task_codec(args):
     sample = None
     ref = NMEA2000Decoder()
     usb_seen = 0
+    shared = {}
     for di in idxs:
         defn = db.defs[di]
         for base in ("min", "mid", "max", "ones"):
@@ -156,6 +157,26 @@ def _task_codec(args):
                                              "signature": f"corrupt:{pos}",
                                              "detail": f"[USB packet {pk.hex()}] byte {pos} XOR {mask:#04x} still accepted by decode_usb ({len(bad)} of 4590 corruptions accepted)",
                                              "case": {"part": "corrupt", "packet_hex": pk.hex(), "position": pos, "mask": mask}})
+                    # the same message once more through ONE long-lived encoder / decoder pair per format (a gateway client keeps
+                    # one of each for its whole life): what they produce must not depend on what they handled before
+                    if not problems and (prio, src, dst) == grid[0] and base in ("mid", "max"):
+                        se, sd = shared.setdefault(fmt, (NMEA2000Encoder(), NMEA2000Decoder()))
+                        why = None
+                        try:
+                            pk2 = encode(se, fmt, m0)
+                            got2 = None
+                            for pk in pk2:
+                                got2 = feed(sd, fmt, pk)
+                            why = same_message(m0, got2, defn.pgn, fmt)
+                        except Exception as ex:  # noqa: BLE001
+                            why = f"{type(ex).__name__}: {ex}"
+                        st["roundtrips"] += 1
+                        if why and len(vios) < 60:
+                            vios.append({"kind": "roundtrip", "facts": {"format": fmt, "definition": defn.id, "mechanism": "depends_on_history"},
+                                         "signature": f"shared:{fmt}:{defn.pgn}:{defn.id}",
+                                         "detail": f"[PGN {defn.pgn} {defn.id} base={base} prio={prio} src={src} dst={dst} {fmt}, on an encoder/decoder pair that "
+                                                   f"handled other messages before (fresh ones round-trip)] {why}",
+                                         "case": {"part": "codec", "pgn": defn.pgn, "definition": defn.id, "base": base, "addr": [prio, src, dst], "format": fmt, "shared": True}})
                     if sample is None and fmt == "usb" and len(packets) > 1:
                         sample = {"part": "codec", "pgn": defn.pgn, "definition": defn.id, "format": fmt, "packets": [x.hex() for x in packets[:2]]}
     return st, vios, sample
@@ -287,7 +308,7 @@ def run(ctx):
                 "8 bytes; corruptions = 18 positions x 255 masks per checked USB packet; sessions = client re-framing runs",
         "samples": samples, "totals": tot, "encodable_definitions": len(enc_defs), "addressing_grid": len(grid),
         "bound_completed": f"{len(grid)} addressings x 4 base value sets x 4 formats; corruption sweep on every {'USB packet' if ctx.thorough else '9th USB packet'}; "
-                           "client re-framing of two back-to-back messages, whole and byte-by-byte, bases mid and ones",
+                           "bases mid and max again on one long-lived encoder/decoder pair per format; client re-framing of two back-to-back messages, whole and byte-by-byte, bases mid and ones",
         "exhaustive": True,
     }
     return {"coverage": cov, "violations": vios,
@@ -307,6 +328,10 @@ def replay(ctx, rep):
         return [{"kind": "corruption_accepted", "facts": {}, "detail": "still accepted", "case": c}] if r is not None else []
     db = refdb.db()
     idx = db.by_id[(c["pgn"], c["definition"])].idx
+    if c["part"] == "codec" and c.get("shared"):
+        sib = [d.idx for d in db.by_pgn[c["pgn"]] if d.encodable]
+        st, v, s = _task_codec((sib, [tuple(c["addr"])], 10 ** 9))
+        return [x for x in v if x["case"].get("shared") and x["case"]["definition"] == c["definition"] and x["case"].get("format") == c["format"]][:1]
     if c["part"] == "codec":
         st, v, s = _task_codec(([idx], [tuple(c["addr"])], 10 ** 9))
     else:
